@@ -289,12 +289,12 @@ class Cache:
             if self.group_by or self.is_summarized:
                 return "join with a grouped table"
 
+            # (also hidden columns can be referenced after the join)
             if (node.how == "full" or (node.child not in self.derived_from and node.how == "left")) and any(
-                types.is_const(self.cols[uid].dtype()) for uid in self.uuid_to_name.keys()
+                types.is_const(col.dtype()) for col in self.cols.values()
             ):
                 return "left / full join with a table containing a constant column"
 
-            # (also hidden columns can be referenced after the join)
             if any(col.ftype() == Ftype.WINDOW for col in self.cols.values()):
                 return "join with a table containing window function expression"
 
